@@ -69,6 +69,11 @@ func comps(extra map[string]string) map[string]string {
 }
 
 var props = map[string]propCfg{
+	"C08": {World: "buf", QuickRuns: 4000, ThoroughRuns: 800000,
+		Rule: "one run = one history of 3..25 operations over a pool of 2..4 transport-owned 4 KiB receive buffers: Recv (a reference-encoded frame of one of the 21 entry points for the structures C08 lists is written into a buffer, possibly at a non-zero offset and followed by the next packet, parsed, and the value kept), Scribble (a field of the frame chosen from the reference field map, or the whole buffer, is overwritten with zeros / 0xFF / inverted / PRNG bytes), Recycle (Recv into a buffer that already holds a frame), ScribbleReturned (overwrite the slices handed out by the accessors documented to return copies). After every operation every live value's observation vector (all exported argument-free accessors, recursively) must equal the one captured right after its parse. Non-trivial = at least one scribble/recycle fired; distinct = distinct run fingerprints.",
+		Assumptions: []string{"for LeaseSet2 / MetaLeaseSet the observation leaves out Options(), entry Properties() and the serialisers/verifier that include them (the property exempts the options mappings)", "only frames the parser accepts are kept as live values", "accessors not documented to return copies are never scribbled"},
+		Components:  comps(map[string]string{"transport": "simulated: owns and recycles the receive buffers, corrupts stored bytes at arbitrary instants", "consumer": "harness code: calls the library parser on the buffer slice, keeps the value, observes it by reflection", "clock": "synctest bubble (fixed instant)"}),
+		TimeoutQuick: 5 * time.Minute, TimeoutThoro: 40 * time.Minute},
 	"C03": {World: "stream", QuickRuns: 4000, ThoroughRuns: 600000,
 		Rule: "one run = one simulated connection: 1..12 reference-encoded frames for randomly chosen remainder-returning entry points (37 of them), delivered as a byte stream cut at scripted offsets (biased by the reference field map to length/count fields and extent-1/extent/extent+1), at a fixed MSS down to 1 byte, coalesced, or reset at a byte offset; or as datagrams followed by 0..64 bytes of padding of six kinds, some truncated. The receiver frames the stream with the library's own remainders only. Non-trivial = at least one cut, reset, padding or truncation fired; distinct = distinct run fingerprints (SHA-256 over every parse attempt's (frame, buffered bytes, success, remainder length)).",
 		Assumptions: []string{"only frames the parser accepts when given exactly the reference encoding are sent (C03 quantifies over accepted inputs); rejected reference frames are counted as probes", "success per entry point: err == nil; ReadInteger: result of the requested length; ReadMapping/NewMapping: no error other than the documented 'data exists beyond length of mapping' warning", "Certificate.RawBytes/ExcessBytes and KeyCertificate.Data are documented to expose bytes beyond the declared length and are left out of the 'same value' comparison", "the structure extent is the reference encoder's length"},
